@@ -421,6 +421,20 @@ def run(prop, tier, seed, out, timeout, **kw):
             else:
                 rest.append(v)
         violations = rest
+    if prop != "C17":
+        # run on behalf of another property (C01: "no undefined behaviour"): only acceptances that make safe code unsound
+        # count.  Destructuring a struct with zero fields moves nothing out, so accepting it (C17's listed finding) is
+        # sound; the macro misuses of the other families (G3..G9: malformed invocations that only need to be *errors*) are
+        # C17's subject alone.  What remains for C01: Drop types with fields (G1) and references (G2).
+        kept = []
+        for v in violations:
+            if v[0].startswith(("G1/braced/fields=0/", "G1/tuple_struct/fields=0/")):
+                labels["sound_acceptance_not_counted"] = labels.get("sound_acceptance_not_counted", 0) + 1
+            elif v[0].startswith(("G1/", "G2/")):
+                kept.append(v)
+            else:
+                labels["not_a_soundness_matter"] = labels.get("not_a_soundness_matter", 0) + 1
+        violations = kept
     labels["known_finding_hits"] = known_hits
     text = []
     if broken_controls:
